@@ -96,6 +96,7 @@ RUnres == [k |-> "unres", v |-> NoBody]           \* a well-formed expression th
 RMal == [k |-> "malformed", v |-> NoBody]         \* not an expression under any reading: must be rejected
 RBadPtr == [k |-> "badptr", v |-> NoBody]         \* syntactically invalid JSON pointer: rejected or unresolvable, never a value
 RU == [k |-> "U", v |-> NoBody]                   \* the standard is silent or ambiguous: not judged
+LitOrRej(s) == [k |-> "litorrej", v |-> Str(s)]   \* braces but no "$" at all: a constant with literal braces, or refused - nothing else
 
 (* ------------------- bare expressions (the ABNF) ------------------------ *)
 Catalogue == {rxUsers, rxAll}                     \* regex extractors "<literal>(.+)"
@@ -104,7 +105,7 @@ RefNode(k, loc, rest, isHeader) ==
     LET h == Find(rest, cHash)
         name == IF h = 0 THEN rest ELSE SubSeq(rest, 1, h - 1)
         ext == IF h = 0 THEN <<>> ELSE Drop(rest, h - 1)
-    IN IF name = <<>> THEN Node("U")                                   \* name = *CHAR admits the empty name; meaningless
+    IN IF name = <<>> \/ Has(name, cDollar) THEN Node("U")             \* name = *CHAR admits the empty name and "$": not judged
        ELSE IF isHeader /\ \E i \in 1..Len(name) : ~IsTChar(name[i]) THEN Node("malformed")    \* token = 1*tchar
        ELSE IF h = 0 THEN [Node(k) EXCEPT !.loc = loc, !.name = name]
        ELSE IF StartsWith(ext, sRegex) /\ Drop(ext, Len(sRegex)) \in Catalogue
@@ -184,9 +185,12 @@ Eval(s, x) ==
          ELSE IF s[1] = cDollar THEN (LET n == Bare(s) IN IF n.k \in {"malformed", "U"} THEN RU ELSE EvalNode(n, x))
               \* a "$..." string that is no expression may be meant as a constant: not judged
          ELSE IF Has(s, cDollar) THEN RU ELSE Val(Str(s))            \* a constant
+    ELSE IF ~Has(s, cDollar) THEN LitOrRej(s)
     ELSE LET sc == Scan(s)
              n == Len(sc.parts)
-             node == [i \in 1..n |-> IF sc.parts[i].lit THEN Node("lit") ELSE Bare(sc.parts[i].s)]
+             \* a group that does not start with "$" may be literal text in braces next to real expressions: not judged
+             node == [i \in 1..n |-> IF sc.parts[i].lit THEN Node("lit")
+                                     ELSE IF sc.parts[i].s[1] # cDollar THEN Node("U") ELSE Bare(sc.parts[i].s)]
              val == [i \in 1..n |-> IF sc.parts[i].lit THEN Val(Str(sc.parts[i].s))
                                     ELSE IF node[i].k \in {"malformed", "U"} THEN RU ELSE EvalNode(node[i], x)]
          IN IF sc.u THEN RU
@@ -217,8 +221,8 @@ Derived(expr, x) == LET r == Eval(expr, x) IN IF r.k = "val" THEN [sent |-> TRUE
 (* ------------------------------ exchanges ------------------------------- *)
 P(n, v) == [n |-> n, v |-> v]
 X1 == [method |-> <<80, 79, 83, 84>>,                                                                   \* POST
-       url |-> <<104, 116, 116, 112, 58, 47, 47, 49, 50, 55, 46, 48, 46, 48, 46, 49, 47, 97, 112, 105, 47, 117, 115, 101,
-                 114, 115, 47, 55, 63, 113, 61, 120>>,                                                  \* http://127.0.0.1/api/users/7?q=x
+       url |-> <<104, 116, 116, 112, 58, 47, 47, 49, 50, 55, 46, 48, 46, 48, 46, 49, 47, 97, 112, 105, 47, 117, 115, 101, 114, 115, 47, 55, 63, 113, 61, 120, 38, 97, 46, 98, 61, 100>>,
+            \* http://127.0.0.1/api/users/7?q=x&a.b=d
        status |-> 201,
        path |-> <<P(nId, Str(<<55>>))>>, query |-> <<P(nQ, Str(<<120>>)), P(nDotted, Str(<<100>>))>>,    \* id=7 ; q=x, a.b=d
        headers |-> <<P(hXId, Str(<<104, 49>>))>>,                                                        \* X-Id: h1
@@ -276,7 +280,7 @@ MutBase == IF Rich THEN {sUrl, sStatus, sRequest \o sPath \o nId, sRequest \o sH
 Edits(s) == {SubSeq(s, 1, i - 1) \o SubSeq(s, i + 1, Len(s)) : i \in 1..Len(s)}
             \cup {SubSeq(s, 1, i) \o <<c>> \o SubSeq(s, i + 1, Len(s)) : i \in 0..Len(s), c \in EditChars}
             \cup {[s EXCEPT ![i] = c] : i \in 1..Len(s), c \in EditChars}
-Family == BareWF \cup PtrExprs \cup Templates \cup UNION {Edits(s) : s \in MutBase}
+Family == BareWF \cup Inner \cup MutBase \cup PtrExprs \cup Templates \cup UNION {Edits(s) : s \in MutBase}
 
 (* ------------------------------ the system ------------------------------ *)
 VARIABLES fam, e, xid, key, keys, out
@@ -295,7 +299,7 @@ Next == Evaluate \/ MatchStatuses
 Spec == Init /\ [][Next]_vars
 
 (* --------------------------- design invariants -------------------------- *)
-Kinds == {"pending", "statuses", "val", "unres", "malformed", "badptr", "U"}
+Kinds == {"pending", "statuses", "val", "unres", "malformed", "badptr", "litorrej", "U"}
 TypeOK == out.k \in Kinds /\ (fam = "status" => out.k \in {"pending", "statuses"}) /\ (fam = "expr" => out.k # "statuses")
 (* every status is claimed by an explicit key or by default, never by both; exact and wildcard keys never exclude each other *)
 DefaultIsTheRest == (fam = "status" /\ out.k = "statuses" /\ key = "default") =>
@@ -304,7 +308,8 @@ ExplicitIgnoresOthers == (fam = "status" /\ out.k = "statuses" /\ key # "default
                             out.v = {s \in Statuses : DigitsMatch(key, s)}
 (* anything with braces evaluates to text (or to nothing); a constant evaluates to itself *)
 EmbeddedIsText == (fam = "expr" /\ out.k = "val" /\ (Has(e, cLB) \/ Has(e, cRB))) => out.v.t = "str"
-ConstantIsItself == (fam = "expr" /\ out.k # "pending" /\ ~Has(e, cLB) /\ ~Has(e, cRB) /\ ~Has(e, cDollar)) => out = Val(Str(e))
+ConstantIsItself == (fam = "expr" /\ out.k # "pending" /\ ~Has(e, cDollar)) =>
+                        out = IF Has(e, cLB) \/ Has(e, cRB) THEN LitOrRej(e) ELSE Val(Str(e))
 (* nothing that is sent can come from a malformed or unresolvable expression *)
 NeverSendsNothing == (fam = "expr" /\ out.k \in {"unres", "malformed", "badptr"}) => ~Derived(e, X(xid)).sent
 (* RFC 6901: the empty pointer is the whole document; escapes decode as the RFC's examples *)
